@@ -1,4 +1,9 @@
-/- Driver ops for the Cmd model (C17): `cmd.serial`, `cmd.async`. -/
+/- Driver ops for the Cmd model (C17): `cmd.parse`, `cmd.serial`, `cmd.async`.
+
+   All three take the step's configuration as a wire value (`cfg`; absent = no such context key), whether
+   the step is a shell step (`shell`), and — the run ops — the *world*: the scripted outcome of every
+   instruction string (`procs`) and of every output path (`paths`). The model parses the configuration
+   (`Cmd.parseCmdConfig`), resolves the strings (`RawCommand.toS / toA`) and runs the step. -/
 import Lean.Data.Json
 import PypyrModel.Json
 import PypyrModel.Cmd
@@ -23,55 +28,124 @@ def kindOf (j : Json) : Except String (Option SpawnKind) :=
   | .str "badArgs" => pure (some .badArgs)
   | _ => throw s!"unknown spawn kind {j.compress}"
 
-/-- Scripted output must be text on which `rstrip`, text-mode decoding and the model agree:
-    printable ASCII, space, tab, newline. Anything else is outside the modelled domain. -/
+def openKindJ : OpenKind → Json
+  | .isDir => Json.str "isDir"
+  | .parentFile => Json.str "parentFile"
+
+def openKindOf (j : Json) : Except String (Option OpenKind) :=
+  match j with
+  | .null => pure none
+  | .str "isDir" => pure (some .isDir)
+  | .str "parentFile" => pure (some .parentFile)
+  | _ => throw s!"unknown open kind {j.compress}"
+
+def isAsciiText (c : Char) : Bool := (c.toNat ≥ 32 && c.toNat < 127) || c == '\n' || c == '\t'
+
+/-- Scripted output: bytes shown one character per byte. In the modelled domain: printable ASCII,
+    space, tab, newline (on which `rstrip`, text-mode decoding and the model agree), and the bytes
+    a1..ff (never white space, never changed by `rstrip`; not valid utf-8 / ascii on their own). -/
 def okText (s : String) : Bool :=
-  s.toList.all fun c => (c.toNat ≥ 32 && c.toNat < 127) || c == '\n' || c == '\t'
+  s.toList.all fun c => isAsciiText c || (c.toNat ≥ 0xa1 && c.toNat ≤ 0xff)
 
-def procOf (j : Json) : Except String Proc := do
-  let id ← jsonNat? (← j.getObjVal? "id")
-  let spawn ← kindOf (← j.getObjVal? "spawn")
-  let code ← jsonInt? (← j.getObjVal? "code")
-  let out ← (← j.getObjVal? "out").getStr?
-  let err ← (← j.getObjVal? "err").getStr?
-  -- exit statuses: 0..255, or -N for death by signal N (1..64)
-  if code > 255 || code < -64 then throw "exit status outside -64..255 is outside the modelled domain"
-  if !(okText out && okText err) then throw "scripted output outside the modelled domain (ASCII text)"
-  if spawn.isSome && (code != 0 || out != "" || err != "") then
-    throw "a command that cannot be started has no exit status and no output"
-  pure ⟨id, spawn, code, out, err⟩
-
-def procsOf (j : Json) : Except String (List Proc) := do
-  (← j.getArr?).toList.mapM procOf
+def hasHigh (s : String) : Bool := s.toList.any fun c => !isAsciiText c
 
 def boolOf (j : Json) (k : String) : Except String Bool := do
   match ← j.getObjVal? k with
   | .bool b => pure b
   | _ => throw s!"{k} must be a bool"
 
-def scommandOf (j : Json) : Except String SCommand := do
-  let run ← procsOf (← j.getObjVal? "run")
-  let save ← boolOf j "save"
-  let text ← boolOf j "text"
-  -- `is_text = not is_bytes if is_save else False`
-  if !save && text then throw "text without save cannot be constructed by create_command"
-  pure ⟨run, save, text⟩
+def procOf (j : Json) : Except String (String × Proc) := do
+  let name ← (← j.getObjVal? "name").getStr?
+  let id ← jsonNat? (← j.getObjVal? "id")
+  let spawn ← kindOf (← j.getObjVal? "spawn")
+  let code ← jsonInt? (← j.getObjVal? "code")
+  let out ← (← j.getObjVal? "out").getStr?
+  let err ← (← j.getObjVal? "err").getStr?
+  let df ← boolOf j "decodeFails"
+  -- exit statuses: 0..255, or -N for death by signal N (1..64)
+  if code > 255 || code < -64 then throw "exit status outside -64..255 is outside the modelled domain"
+  if !(okText out && okText err) then throw "scripted output outside the modelled domain"
+  if spawn.isSome && (code != 0 || out != "" || err != "" || df) then
+    throw "a command that cannot be started has no exit status and no output"
+  if df && !(hasHigh out || hasHigh err) then throw "ASCII output is decodable under every modelled encoding"
+  pure (name, ⟨id, spawn, code, out, err, df⟩)
 
-def entryOf (j : Json) : Except String Entry := do
-  if let .ok p := j.getObjVal? "one" then return .one (← procOf p)
-  if let .ok ps := j.getObjVal? "serial" then return .serial (← procsOf ps)
-  throw "bad entry"
+structure PathSpec where
+  path    : String
+  bad     : Option OpenKind
+  content : Option String
 
-def acommandOf (j : Json) : Except String ACommand := do
-  let r ← j.getObjVal? "run"
-  let run ← (do
-    if let .ok p := r.getObjVal? "single" then return ARun.single (← procOf p)
-    if let .ok es := r.getObjVal? "many" then return ARun.many (← (← es.getArr?).toList.mapM entryOf)
-    throw "bad run" : Except String ARun)
-  let save ← boolOf j "save"
-  let text ← boolOf j "text"
-  if !save && text then throw "text without save cannot be constructed by create_command"
-  pure ⟨run, save, text⟩
+def pathOf (j : Json) : Except String PathSpec := do
+  let path ← (← j.getObjVal? "path").getStr?
+  let bad ← openKindOf (← j.getObjVal? "bad")
+  let content ← (match ← j.getObjVal? "content" with
+    | .null => pure none
+    | .str s => pure (some s)
+    | _ => throw "content must be a string or null" : Except String (Option String))
+  if let some s := content then
+    if !okText s then throw "file content outside the modelled domain"
+  pure ⟨path, bad, content⟩
+
+structure WorldSpec where
+  procs : List (String × Proc)
+  paths : List PathSpec
+
+def worldOf (j : Json) : Except String WorldSpec := do
+  let w ← j.getObjVal? "world"
+  let procs ← (← (← w.getObjVal? "procs").getArr?).toList.mapM procOf
+  let paths ← (← (← w.getObjVal? "paths").getArr?).toList.mapM pathOf
+  let ids := procs.map (·.2.id)
+  if ids.eraseDups.length != ids.length then throw "process ids must be distinct"
+  let names := procs.map (·.1)
+  if names.eraseDups.length != names.length then throw "instruction strings must be distinct"
+  let ps := paths.map (·.path)
+  if ps.eraseDups.length != ps.length then throw "paths must be distinct"
+  pure ⟨procs, paths⟩
+
+def WorldSpec.world (ws : WorldSpec) : World :=
+  { proc := fun s => ((ws.procs.find? (·.1 = s)).map (·.2)).getD default,
+    openErr := fun p => (ws.paths.find? (·.path = p)).bind (·.bad) }
+
+def WorldSpec.fs (ws : WorldSpec) : Fs :=
+  ws.paths.filterMap fun p => p.content.map fun c => (p.path, c)
+
+def cfgOf (j : Json) : Except String (Option Val) :=
+  match j.getObjVal? "cfg" with
+  | .ok v => do pure (some (← Val.ofJson v))
+  | .error _ => pure none
+
+def targetPaths : Target → List String
+  | .file p => [p]
+  | _ => []
+
+/-- Everything the model's reading of a command relies on and the wire cannot enforce by type. -/
+def checkCommand (ws : WorldSpec) (async : Bool) (c : RawCommand) : Except String Unit := do
+  let s := c.set
+  match s.enc with
+  | none => pure ()
+  | some e => if !(e = "utf-8" || e = "latin-1" || e = "ascii") then throw s!"encoding {e} is outside the modelled domain"
+  for p in targetPaths s.stdout ++ targetPaths s.stderr do
+    if !(ws.paths.any (·.path = p)) then throw s!"output path {p} is not in the world"
+  if let (.file a, .file b) := (s.stdout, s.stderr) then
+    if a = b then throw "stdout and stderr to the same file is outside the modelled domain"
+  if s.stdout = .file "/dev/stdout" then throw "stdout: /dev/stdout is outside the modelled domain"
+  let dec := if async then s.save && s.text else syncDec s.save s.text s.enc.isSome
+  for n in c.run.strings do
+    match ws.procs.find? (·.1 = n) with
+    | none => throw s!"instruction {n} is not in the world"
+    | some (_, p) =>
+      if p.decodeFails && s.enc = some "latin-1" then throw "latin-1 decodes every byte string"
+      if dec && !p.decodeFails && (hasHigh p.out || hasHigh p.err) && s.enc != some "latin-1" then
+        throw "non-ASCII output that decodes under utf-8 is outside the modelled domain"
+
+def checkCommands (ws : WorldSpec) (async : Bool) (cs : List RawCommand) : Except String Unit := do
+  for c in cs do checkCommand ws async c
+  let names := cs.flatMap (·.run.strings)
+  if names.eraseDups.length != names.length then throw "an instruction string occurs twice in the configuration"
+  if async then
+    let ps := cs.flatMap fun c => targetPaths c.set.stdout ++ targetPaths c.set.stderr
+    if ps.eraseDups.length != ps.length then
+      throw "two concurrent commands writing one file is outside the modelled domain"
 
 def outJ : Out → Json
   | .none => Json.null
@@ -84,12 +158,14 @@ def resJ (r : Result) : Json :=
 def errJ : CmdErr → Json
   | .exit i c => Json.mkObj [("id", natJ i), ("code", intJ c)]
   | .spawn i k => Json.mkObj [("id", natJ i), ("spawn", kindJ k)]
+  | .decode i => Json.mkObj [("decode", natJ i)]
+  | .openOut p k => Json.mkObj [("open", Json.str p), ("kind", openKindJ k)]
 
 def arrJ {α} (f : α → Json) (xs : List α) : Json := Json.arr (xs.map f).toArray
 
 def itemJ : Item → Json
   | .res r => Json.mkObj [("res", resJ r)]
-  | .exc i k => Json.mkObj [("exc", Json.mkObj [("id", natJ i), ("spawn", kindJ k)])]
+  | .exc e => Json.mkObj [("exc", errJ e)]
 
 def slotJ : Slot → Json
   | .one i => Json.mkObj [("one", itemJ i)]
@@ -99,30 +175,89 @@ def eventJ : Event → Json
   | .start i => Json.arr #[Json.str "s", natJ i]
   | .fin i => Json.arr #[Json.str "f", natJ i]
 
+def targetJ : Target → Json
+  | .inherit => Json.null
+  | .devnull => Json.str "devnull"
+  | .toStdout => Json.str "stdout"
+  | .file p => Json.mkObj [("file", Json.str p)]
+
+def optStrJ : Option String → Json
+  | none => Json.null
+  | some s => Json.str s
+
+def rawEntryJ : RawEntry → Json
+  | .one s => Json.str s
+  | .sub ss => arrJ Json.str ss
+
+def rawJ (c : RawCommand) : Json :=
+  Json.mkObj [
+    ("run", match c.run with
+      | .single s => Json.str s
+      | .many es => arrJ rawEntryJ es),
+    ("shell", Json.bool c.set.shell), ("cwd", optStrJ c.set.cwd), ("save", Json.bool c.set.save),
+    ("text", Json.bool c.set.text), ("encoding", optStrJ c.set.enc), ("stdout", targetJ c.set.stdout),
+    ("stderr", targetJ c.set.stderr), ("append", Json.bool c.set.append)]
+
+def fsJ (fs : Fs) : Json := Json.mkObj (fs.map fun (p, s) => (p, Json.str s))
+
+def parsed (j : Json) (async : Bool) : Except String (Except Exc (List RawCommand)) := do
+  let cfg ← cfgOf j
+  let shell ← boolOf j "shell"
+  match parseCmdConfig async shell cfg with
+  | none => throw "configuration outside the modelled domain"
+  | some r => pure r
+
 def handle (op : String) (j : Json) : Except String Json := do
   match op with
+  | "parse" =>
+    let async ← boolOf j "async"
+    match ← parsed j async with
+    | .error e => pure (Json.mkObj [("err", Exc.toJson e)])
+    | .ok cs => pure (Json.mkObj [("ok", arrJ rawJ cs),
+        ("decls", arrJ (fun (x : String × Bool × Bool) =>
+          Json.arr #[Json.str x.1, Json.bool x.2.1, Json.bool x.2.2]) (rawDecls cs))])
   | "serial" =>
-    let cs ← (← (← j.getObjVal? "cmds").getArr?).toList.mapM scommandOf
-    let o := runSerial cs
-    pure (Json.mkObj [
-      ("started", arrJ natJ o.started),
-      ("err", match o.err with | none => Json.null | some e => errJ e),
-      ("results", arrJ resJ o.results),
-      ("cmdOut", match o.cmdOut with
-        | .unset => Json.null
-        | .single r => Json.mkObj [("single", resJ r)]
-        | .many rs => Json.mkObj [("many", arrJ resJ rs)])])
+    match ← parsed j false with
+    | .error e => pure (Json.mkObj [("ctor_err", Exc.toJson e)])
+    | .ok raw =>
+      let ws ← worldOf j
+      checkCommands ws false raw
+      let prev ← (match j.getObjVal? "prev" with
+        | .ok v => do pure (some (← Val.ofJson v))
+        | .error _ => pure none : Except String (Option Val))
+      let cs := raw.map (RawCommand.toS ws.world)
+      let o := runSerial cs
+      pure (Json.mkObj [
+        ("started", arrJ natJ o.started),
+        ("err", match o.err with | none => Json.null | some e => errJ e),
+        ("results", arrJ resJ o.results),
+        ("cmdOut", match o.cmdOut with
+          | .unset => Json.null
+          | .single r => Json.mkObj [("single", resJ r)]
+          | .many rs => Json.mkObj [("many", arrJ resJ rs)]),
+        ("after", match cmdOutAfter prev cs with
+          | .prior none => Json.mkObj [("prior", Json.mkObj [("absent", Json.bool true)])]
+          | .prior (some v) => Json.mkObj [("prior", Json.mkObj [("val", v.toJson)])]
+          | .single r => Json.mkObj [("single", resJ r)]
+          | .many rs => Json.mkObj [("many", arrJ resJ rs)]),
+        ("files", fsJ (filesSerial cs ws.fs))])
   | "async" =>
-    let cs ← (← (← j.getObjVal? "cmds").getArr?).toList.mapM acommandOf
-    let sched ← (← (← j.getObjVal? "sched").getArr?).toList.mapM jsonNat?
-    let o := runAsync cs sched
-    pure (Json.mkObj [
-      ("trace", arrJ eventJ o.trace),
-      ("started", arrJ natJ o.started),
-      ("errors", arrJ errJ o.errors),
-      ("lanes", natJ (lanesOf cs).length),
-      ("running", arrJ natJ o.running),
-      ("cmdOut", match o.cmdOut with | none => Json.null | some ss => arrJ slotJ ss)])
+    match ← parsed j true with
+    | .error e => pure (Json.mkObj [("ctor_err", Exc.toJson e)])
+    | .ok raw =>
+      let ws ← worldOf j
+      checkCommands ws true raw
+      let cs := raw.map (RawCommand.toA ws.world)
+      let sched ← (← (← j.getObjVal? "sched").getArr?).toList.mapM jsonNat?
+      let o := runAsync cs sched
+      pure (Json.mkObj [
+        ("trace", arrJ eventJ o.trace),
+        ("started", arrJ natJ o.started),
+        ("errors", arrJ errJ o.errors),
+        ("lanes", natJ (lanesOf cs).length),
+        ("running", arrJ natJ o.running),
+        ("cmdOut", match o.cmdOut with | none => Json.null | some ss => arrJ slotJ ss),
+        ("files", fsJ (filesAsync cs o.trace ws.fs))])
   | _ => .error s!"unknown op {op}"
 
 end Pypyr.OpCmd
